@@ -392,7 +392,9 @@ class Spec:
         self._subs = {}
 
     def to_root(self, v):
-        return self.engine.to_root(v)
+        v = self.engine.to_root(v)
+        refine = getattr(self.decider, 'refine', None)
+        return refine(self, v) if refine is not None and v is not None else v
 
     def for_call(self, h, args):
         """the Spec in which helper h is evaluated for a call with the given argument values (root terms): this one
@@ -1012,6 +1014,74 @@ class ArmCase:
     def __init__(self, root, b, p, d, view=None):
         self.root, self.B, self.P, self.D = root, b, p, d
         self.view = view        # EntryView of the loop being evaluated: a filter / map view of self.entries
+        # a view whose element depends on the case (EntryView.bind_case): what the loop element *is* for an entry of
+        # this case, in terms of ('sym', 'ENTRY'), and the parameters of the closures of the view that stand for it
+        self.elem_value = None
+        self.cbind = {}
+
+    # ---- the loop element under this case ----------------------------------------------------------------
+    def refine(self, spec, v):
+        """v (root terms) with the element of a case-dependent view of the entries replaced by what it is in this
+        case — `entries.iter().filter_map(|((b, n), v)| match b { Override => Some(Op::Set { n, v }), .. })` yields
+        `Op::Set { name: ENTRY.0.1, value: ENTRY.1 }` for an Override entry — and projections of it re-normalised"""
+        if self.cbind:
+            v = subst(v, self.cbind, spec.engine.psl)
+        if self.elem_value is not None:
+            v = self._replace_elem(v, spec.engine.psl)
+        return v
+
+    def _is_view_elem(self, v):
+        if v[0] != 'unwrap' or self.view is None or self.view.coll_key is None:
+            return False
+        coll, proj = L.loop_element(v)
+        return coll is not None and proj == () and canon(coll) == self.view.coll_key
+
+    def _replace_elem(self, v, psl):
+        if not isinstance(v, tuple) or not v or v[0] in ('const', 'param', 'fnitem', 'constitem', 'unknown', 'closure_env', 'upvar', 'sym'):
+            return v
+        if self._is_view_elem(v):
+            return self.elem_value
+        out, changed = [], False
+        for x in v:
+            if isinstance(x, tuple):
+                y = self._replace_elem(x, psl)
+                changed = changed or (y is not x)
+                out.append(y)
+            else:
+                out.append(x)
+        if not changed:
+            return v
+        nv = tuple(out)
+        if nv[0] == 'field' and nv[1][0] in ('agg', 'tuple', 'closure', 'phi', 'updated'):
+            return psl._field(nv[1], nv[2])
+        if nv[0] == 'variant' and nv[1][0] in ('agg', 'phi'):
+            return psl._variant(nv[1], nv[2])
+        return nv
+
+    def adt(self, spec, v, d=0):
+        """v as a literal enum value ('agg', adt, variant, fields) in this case, else None"""
+        if d > 8 or not isinstance(v, tuple) or not v:
+            return None
+        if v[0] == 'updated':
+            return self.adt(spec, v[1], d + 1)
+        if v[0] == 'agg' and v[1] is not None and v[2] is not None:
+            return v
+        if v[0] == 'phi':
+            rs = [self.adt(spec, x, d + 1) for x in v[1]]
+            return rs[0] if all(r is not None and r[1] == rs[0][1] and r[2] == rs[0][2] for r in rs) else None
+        if v[0] == 'select' and v[2] == MB and self.is_behaviour(v[1]):
+            for names, val in v[3]:
+                if self.B in names:
+                    return self.adt(spec, val, d + 1)
+            return None
+        if v[0] == 'unwrap':
+            o = self.opt(spec, v[1], None, d + 1)
+            return self.adt(spec, o[1], d + 1) if o is not None and o[0] == 'some' else None
+        if v[0] == 'call':
+            iv = self.inline(spec, v)
+            if iv is not None:
+                return self.adt(spec, iv, d + 1)
+        return None
 
     # ---- classification of root-level values ---------------------------------------------------------
     def entry_proj(self, v):
@@ -1061,6 +1131,11 @@ class ArmCase:
                 if o is None:
                     return None
                 return ('Some' if o[0] == 'some' else 'None') in cd.outcome
+            # a `match` on a value of some other (private) enum that is a literal variant in this case: the operation
+            # an entry of this behaviour was translated into
+            a = self.adt(spec, subj)
+            if a is not None and a[1] == cd.enum:
+                return a[2] in cd.outcome
             return None
         if cd.kind == 'bool':
             b = self.boolv(spec, spec.to_root(cd.value), at)
@@ -1632,13 +1707,20 @@ class EntryView:
     aliases  values that, inside the loop, equal the behaviour of the entry (the filters let nothing else through)
     table    None, or the literal behaviour table [variant names] an enclosing loop takes `wanted` from: the loop body
              then runs once per entry whose behaviour is in the table, in table order first and map order second
-    why      set when the collection is a view of the entries this analysis cannot vouch for"""
+    why      set when the collection is a view of the entries this analysis cannot vouch for
+    dynamic  the view is decided per case (bind_case): its stages (filter / map / filter_map over the entries, all of
+             them lazy, per-element and order-preserving) are evaluated for one entry of the case, which tells whether
+             the entry is visited at all and what the loop element is for it —
+                 entries.iter().filter_map(|((b, n), v)| match b { Override => Some(Op::Set { n, v }), .., Delimiter => None })
+             Nothing is assumed about the closures: a test the case does not decide leaves the view not understood"""
 
     def __init__(self, engine, lp):
         self.engine, self.lp = engine, lp
         self.elem, self.aliases, self.table, self.why = None, [], None, None
         self.ok = False
         self.mapped = False
+        self.dynamic = False
+        self.stages = []
         self.coll_key = None
         self.alias_keys = set()
         g, psl = engine.root, engine.psl
@@ -1659,7 +1741,7 @@ class EntryView:
             n, args = cur[1], cur[2]
             if (n in ORDER_KEEPING or n in iters.COLLECTING or (iters._is_source(n) and n.endswith(iters.SAME_ELEMS))) and len(args) == 1:
                 cur = strip(args[0])
-            elif n in (iters.IT + 'filter', iters.IT + 'map') and len(args) == 2:
+            elif n in (iters.IT + 'filter', iters.IT + 'map', iters.IT + 'filter_map') and len(args) == 2:
                 stages.append((n, strip(args[1])))
                 cur = strip(args[0])
             else:
@@ -1667,27 +1749,76 @@ class EntryView:
         else:
             return
         # from here on the loop does range over (some of) the entries: anything not understood is reported
+        self.stages = list(reversed(stages))
+        if any(cl[0] != 'closure' or cl[1] not in engine.prog.fns for _, cl in self.stages):
+            self.why = 'a stage of the view of the entries is not a closure'
+            return
         elem = ('sym', 'ENTRY')
-        for n, cl in reversed(stages):
-            r = psl.apply_closure(cl, (elem,)) if cl[0] == 'closure' else None
-            if r is None:
-                self.why = 'closure of %s over the entries not evaluated' % n.split('::')[-1]
-                return
-            while r[0] == 'updated':
-                r = r[1]
-            if n.endswith('::map'):
+        for n, cl in self.stages:
+            r = psl.apply_closure(cl, (elem,)) if not n.endswith('::filter_map') else None
+            if r is not None:
+                while r[0] == 'updated':
+                    r = r[1]
+            if r is not None and n.endswith('::map'):
                 elem = r
                 continue
-            x = self._equalled(r, elem)
+            x = self._equalled(r, elem) if r is not None else None
             if x is None:
-                self.why = 'entries are filtered by something else than `behaviour == <value>`: ' + vstr(r)[:100]
+                # not `behaviour == <value of an enclosing table loop>`: which entries get through, and as what, is
+                # decided for each case on its own
+                self.elem, self.aliases = None, []
+                self.dynamic = self.mapped = self.ok = True
                 return
             self.aliases.append(x)
+        if self.reads_env(elem):
+            self.why = 'the view of the entries consults the environment before the entries are applied: ' + vstr(elem)[:100]
+            return
         self.elem, self.mapped = elem, True
         self.alias_keys = {canon(strip(x)) for x in self.aliases}
         if self.aliases and not self._table():
             return
         self.ok = True
+
+    def bind_case(self, spec, case):
+        """evaluate the stages of a dynamic view for one entry of the case: 'visited' (case.elem_value is the loop
+        element for it) | 'skipped' (the view does not let entries of this case through) | ('why', text)"""
+        elem = ('sym', 'ENTRY')
+        case.elem_value, case.cbind = None, {}
+        for n, cl in self.stages:
+            tail = n.split('::')[-1]
+            # the conditions inside the closure are decided with its parameter standing for the element it is given
+            case.cbind[(cl[1], 1)] = elem
+            r = spec.asl.apply_closure(cl, (elem,))
+            if r is None:
+                return ('why', 'closure of %s over the entries not evaluated' % tail)
+            while r[0] == 'updated':
+                r = r[1]
+            if self.reads_env(r):
+                # the stages of the view run before the entries are applied (all of them, when the view is collected
+                # first): an environment consulted there is not the environment built so far
+                return ('why', 'the view of the entries consults the environment before the entries are applied: ' + vstr(r)[:100])
+            if tail == 'map':
+                elem = r
+            elif tail == 'filter':
+                b = case.boolv(spec, r, None)
+                if b is None:
+                    return ('why', 'entries are filtered by a test the behaviour of the entry does not decide: ' + vstr(r)[:100])
+                if not b:
+                    return 'skipped'
+            else:
+                o = case.opt(spec, r, None)
+                if o is None:
+                    return ('why', 'filter_map over the entries: whether an entry with behaviour %s gets through is not decided: %s' % (case.B, vstr(r)[:100]))
+                if o[0] == 'none':
+                    return 'skipped'
+                elem = o[1]
+        case.elem_value = elem
+        return 'visited'
+
+    def reads_env(self, v):
+        """the value mentions the environment handed to the delta application (clones are transparent to the slicer)"""
+        g = self.engine.root
+        return any(isinstance(x, tuple) and x and x[0] == 'param' and x[1] == g.path and x[2] == 1 for x in walk(v))
 
     @staticmethod
     def proj_of(elem, proj):
@@ -1915,6 +2046,14 @@ def arm_cases(prog):
                     continue
                 case = ArmCase(g, b, p, d, view)
                 spec = Spec(eng, case)
+                if view is not None and view.dynamic:
+                    st = view.bind_case(spec, case)
+                    if st == 'skipped':
+                        res[(b, p, d)] = {()}       # the view never yields an entry of this case: nothing is inserted
+                        continue
+                    if st != 'visited':
+                        info['why'] = 'the loop over the entries was not understood: ' + st[1]
+                        return g, None, seen, info
                 res[(b, p, d)] = spec.events(walk_fn, starts, ends, _insert_event(case, ends_of), ret_marker=marker, marks=marks)
                 seen |= spec.seen_sites
     return g, res, seen, info
